@@ -8,6 +8,8 @@ Decided on the real MIR with BytecodeBuilder recorded as events and every other 
   K3  Interpreter::collect_import_requests_internal requests a module for an import / re-export statement iff the statement is
       not type-only (`import type`, `export type ... from`).
   K4  Compiler::compile_export_declaration on a type-only export returns Ok and emits nothing, whatever else the statement carries.
+  K6  every speculative parse of the type grammar (`<T>x`, `f<T>(..)`, mapped / function types, peeks) that DECLINES has rewound the
+      lexer and the current token completely, so a declined speculation cannot shift how neighbouring tokens parse (props/parsebk.py).
 How the parser treats annotations at every position (speculative parses, `<T>(x)` vs comparisons) is not encodable and is
 outside the claim; so is everything else the statement says about whole programs.
 """
@@ -477,6 +479,8 @@ def run(rep):
     k3(rep, cross)
     k4(rep, cross)
     k5(rep, cross)
+    from . import parsebk
+    parsebk.check(rep, cross, 'C03')   # K6
     rep.cross = driver.cross_check(cross, 300, 'ALL', rep.tier, rep.seed)
     rep.extra['cross_checked_obligations'] = len(cross)
 
